@@ -193,8 +193,8 @@ HARNESSES = {
               "jobs": lambda tier: [{"ops_per_thread": p, "preempt": 1, "caps": (8, 0, 0, 4)} for p in STATE_PAIRS] +
                                    ([{"ops_per_thread": p, "preempt": 1} for p in PAIRS_Q] if tier == "quick" else
                                     [{"ops_per_thread": p, "preempt": 2} for p in PAIRS_T]
-                                    + [{"ops_per_thread": [["consume_atp"], ["consume_atp"], ["regenerate"]], "preempt": 1},
-                                       {"ops_per_thread": [["transfer_ab"], ["transfer_ba"], ["consume_atp"]], "preempt": 1},
+                                    + [{"ops_per_thread": [["consume_atp"], ["consume_atp"], ["regenerate"]], "preempt": 0},
+                                       {"ops_per_thread": [["transfer_ab"], ["transfer_ba"], ["consume_atp"]], "preempt": 0},
                                        {"ops_per_thread": [["consume_atp", "regenerate"], ["consume_atp"]], "preempt": 1}]),
               "clauses": ["C05.a", "C05.b", "C05.c"]},
 }
@@ -207,7 +207,7 @@ META = {
     },
     "files": ["operon_ai/state/metabolism.py"],
     "bounds": {"quick": "6 pairs of single operations on one or two shared stores, 2 threads, preemption bound 1, line granularity, values 0..64 (metabolic-state update cut out); 3 pairs with the real _update_state, capacities 8/0/0/4, symbolic balances, each store's metabolic state part of the compared outcome",
-               "thorough": "12 pairs with preemption bound 2; 3 threads x 1 op and 2+1 ops with bound 1"},
+               "thorough": "the 3 state pairs (bound 1); 12 pairs with preemption bound 2; 3 threads x 1 op with bound 0 (switches at blocking points and thread ends only; bound 1 exceeds 5 minutes per configuration on 16 cores); 2+1 ops with bound 1"},
     "outside": ["atomicity of transfer_to as a whole: by design it is two lock-protected units (withdraw, then the peer's regenerate); sequential orders interleave those units", "more than P preemptions", "preemption inside a source line", "background regeneration thread", "on_state_change re-entrancy", "threads doing 3 operations each"],
     "float_argument": "F-indep for the 6 cut pairs (state not compared). State jobs: with capacity 8 the ratio is a multiple of 1/16, exactly representable, and never equal to the thresholds 1/10, 3/10, 9/10, so the float comparison and the exact rational comparison agree on every value (path witnesses re-check concretely)",
     "assumptions": ["stores start in state NORMAL with arbitrary balances (gtp<=max_gtp, nadh<=max_nadh)", "lock shims of the constructed kind; scheduler serialises threads"],
